@@ -15,6 +15,7 @@ use std::mem::MaybeUninit;
 pub const CAP: usize = 2;
 
 pub struct HashMap<K, V> {
+    last: usize,
     used: [bool; CAP],
     keys: [MaybeUninit<K>; CAP],
     vals: [MaybeUninit<V>; CAP],
@@ -45,6 +46,7 @@ impl<K, V> std::fmt::Debug for HashMap<K, V> {
 impl<K, V> Default for HashMap<K, V> {
     fn default() -> Self {
         Self {
+            last: 0,
             used: [false; CAP],
             keys: [MaybeUninit::zeroed(), MaybeUninit::zeroed()],
             vals: [MaybeUninit::zeroed(), MaybeUninit::zeroed()],
@@ -65,6 +67,10 @@ impl<K, V> HashMap<K, V> {
     pub fn clear(&mut self) {
         self.used[0] = false;
         self.used[1] = false;
+    }
+    fn last_inserted(&mut self) -> &mut V {
+        let i = self.last;
+        unsafe { self.vals[i].assume_init_mut() }
     }
     fn key(&self, i: usize) -> &K {
         unsafe { self.keys[i].assume_init_ref() }
@@ -123,6 +129,7 @@ impl<K, V> HashMap<K, V> {
         while i < CAP {
             if !self.used[i] {
                 self.used[i] = true;
+                self.last = i;
                 self.keys[i].write(k);
                 self.vals[i].write(v);
                 return None;
@@ -160,6 +167,47 @@ impl<K, V> HashMap<K, V> {
         }
         m
     }
+    /// `HashMap::entry` for the handful of combinators code usually chains on it.
+    pub fn entry(&mut self, k: K) -> Entry<'_, K, V>
+    where
+        K: Eq,
+    {
+        let at = self.find(&k);
+        Entry { map: self, key: k, at }
+    }
+    pub fn retain<F: FnMut(&K, &mut V) -> bool>(&mut self, mut f: F) {
+        let mut i = 0;
+        while i < CAP {
+            if self.used[i] {
+                let keep = unsafe { f(self.keys[i].assume_init_ref(), self.vals[i].assume_init_mut()) };
+                if !keep {
+                    self.used[i] = false;
+                }
+            }
+            i += 1;
+        }
+    }
+    pub fn keys(&self) -> impl Iterator<Item = &K> {
+        self.iter().map(|(k, _)| k)
+    }
+    pub fn values(&self) -> impl Iterator<Item = &V> {
+        self.iter().map(|(_, v)| v)
+    }
+    pub fn iter_mut(&mut self) -> impl Iterator<Item = (&K, &mut V)> {
+        let used = self.used;
+        self.keys.iter().zip(self.vals.iter_mut()).enumerate().filter(move |(i, _)| used[*i]).map(|(_, (k, v))| unsafe { (k.assume_init_ref(), v.assume_init_mut()) })
+    }
+    pub fn values_mut(&mut self) -> impl Iterator<Item = &mut V> {
+        self.iter_mut().map(|(_, v)| v)
+    }
+    pub fn extend<I: IntoIterator<Item = (K, V)>>(&mut self, it: I)
+    where
+        K: Eq,
+    {
+        for (k, v) in it {
+            self.insert(k, v);
+        }
+    }
     /// (slot 0, slot 1) as options - a loop-free way to visit every entry.
     pub fn entries(&self) -> [Option<(&K, &V)>; CAP] {
         [
@@ -169,6 +217,42 @@ impl<K, V> HashMap<K, V> {
     }
     pub fn iter(&self) -> impl Iterator<Item = (&K, &V)> {
         self.entries().into_iter().flatten()
+    }
+}
+
+pub struct Entry<'a, K, V> {
+    map: &'a mut HashMap<K, V>,
+    key: K,
+    at: Option<usize>,
+}
+impl<'a, K: Eq, V> Entry<'a, K, V> {
+    pub fn or_insert_with<F: FnOnce() -> V>(self, f: F) -> &'a mut V {
+        let i = match self.at {
+            Some(i) => {
+                std::mem::forget(self.key);
+                i
+            }
+            None => {
+                self.map.insert(self.key, f());
+                return self.map.last_inserted();
+            }
+        };
+        unsafe { self.map.vals[i].assume_init_mut() }
+    }
+    pub fn or_insert(self, v: V) -> &'a mut V {
+        self.or_insert_with(|| v)
+    }
+    pub fn or_default(self) -> &'a mut V
+    where
+        V: Default,
+    {
+        self.or_insert_with(V::default)
+    }
+    pub fn and_modify<F: FnOnce(&mut V)>(self, f: F) -> Self {
+        if let Some(i) = self.at {
+            f(unsafe { self.map.vals[i].assume_init_mut() });
+        }
+        self
     }
 }
 
